@@ -138,6 +138,8 @@ def _exc_class(kind):
         return type('NamedFailure', (Exception,), {'dbusErrorName': 'org.verif.Error.Named'})
     if kind == 'badname':
         return type('BadName', (Exception,), {'dbusErrorName': 'not a valid name'})
+    if kind == 'badname-format':
+        return type('BadName', (Exception,), {'dbusErrorName': 'org.verif.Error.%s%d%'})
     if kind == 'nonascii':
         return type('Fehleré', (Exception,), {})
     if kind == 'none-name':
@@ -158,13 +160,13 @@ class _Holder:
 
 def _expected_error_name(kind):
     return {'plain': 'org.txdbus.PythonException.VerifFailure', 'named': 'org.verif.Error.Named',
-            'badname': 'org.txdbus.InvalidErrorName', 'nonascii': 'org.txdbus.InvalidErrorName',
+            'badname': 'org.txdbus.InvalidErrorName', 'badname-format': 'org.txdbus.InvalidErrorName', 'nonascii': 'org.txdbus.InvalidErrorName',
             'none-name': 'org.txdbus.PythonException.NoneName', 'nested': 'org.txdbus.PythonException.NestedFailure',
             'local': 'org.txdbus.PythonException.LocalFailure'}[kind]
 
 
 TEXTS = {'plain': 'it broke', 'empty': '', 'unicode': 'käput €', 'nul': 'bad\x00text',
-         'surrogate': 'lone \udc80 surrogate'}
+         'surrogate': 'lone \udc80 surrogate', 'format': '100% {broken} %s %(x)d \\n'}
 
 
 def run_case(case):
@@ -184,7 +186,7 @@ def run_case(case):
         if call['sender']:
             fields[7] = SENDER
         fields[6] = ':1.5'
-        raw = R.encode_message(1, serial, fields, call['sig'], call['trees'], little=call['little'],
+        raw = R.encode_variant(ci + len(call['member']), 1, serial, fields, call['sig'], call['trees'], little=call['little'],
                                flags=1 if call['no_reply'] else 0)
         msg = MSG.parseMessage(raw, [])
         state['log'][:] = []
@@ -523,8 +525,8 @@ def gen_case(draw, tier):
         outc['pres'] = draw(S.presentation)
         outc['as_tuple'] = draw(st.booleans())
         if kind in ('raise', 'deferred-fail'):
-            outc['exc'] = draw(st.sampled_from(['plain', 'plain', 'named', 'badname', 'nonascii', 'none-name', 'nested', 'local']))
-            outc['text'] = draw(st.sampled_from(['plain', 'plain', 'empty', 'unicode', 'nul', 'surrogate']))
+            outc['exc'] = draw(st.sampled_from(['plain', 'plain', 'named', 'badname', 'badname-format', 'nonascii', 'none-name', 'nested', 'local']))
+            outc['text'] = draw(st.sampled_from(['plain', 'plain', 'empty', 'unicode', 'nul', 'surrogate', 'format']))
         call['outcome'] = outc
         calls.append(call)
     return {'ifaces': ifaces, 'path': path, 'calls': calls}
